@@ -269,6 +269,21 @@ CLAIMS = {
         "Fields excluded from == by the dataclass (short_description) are not compared; layout subclasses compared by traps+slug.",
         "DESIGN.md §3 C17",
     ),
+    "C11": (
+        "exploration",
+        "exhaustive sweeps on the real emulators: every integer duration, programs x noise x evaluation-time settings, every "
+        "basis-state tuple, and every tape of numpy.random answers (owned RNG)",
+        "58k cases (quick): every duration 4..1500 ns (thorough 12000) of a resonant pulse - legacy norm, analytic Rabi "
+        "population, V2 backend returns and stores the same final state; 8 programs x 7 noise configurations x 4 evaluation-time "
+        "settings x sampling rates {1, 0.5, (0.1)} - every stored state normalised / unit-trace / Hermitian / positive, times "
+        "ascending, V2 == legacy at equal times, zero drive keeps the state; every basis-state tuple of 1-4 atoms in each of 8 "
+        "eigenbases x measurement bases as ket and density matrix -> documented bitstring through the legacy result object "
+        "and the V2 state; every tape of RNG answers (interval interiors, both end points, rate-/rate/rate+) for 1-2 shots on 4 "
+        "distributions x 4 detection-error settings against a reference function of the tape.",
+        "Solver tolerances as listed in the evidence; Rabi value required within the range spanned by effective durations "
+        "[T-1, T]; large-shot statistics are not decided.",
+        "DESIGN.md §3 C11",
+    ),
 }
 
 PENDING_REASON = "check not built yet in this round (design in DESIGN.md §3); nothing is claimed for it"
